@@ -32,14 +32,14 @@ Section Unfold.
     | EBin o l r =>
         let c := N.max ctx (bs_bin F o) in
         fmt F l (c, PLeft, unb) ++ TS (sym_bin F o) false :: fmt F r (c, PRight, unb)
-    | EUn u x => TS (sym_un F u) true :: fmt F x (N.max ctx (bs_un F), pos, unb)
+    | EUn u x => TS (sym_un F u) true :: fmt F x (N.max ctx (bs_un F), PUnspec, unb)
     | ERng l r =>
-        let c := N.max ctx (bs_rng F) in fmt F l (c, pos, unb) ++ TRg true true :: fmt F r (c, pos, unb)
-    | ERngL l => fmt F l (N.max ctx (bs_rng F), pos, unb) ++ [TRg true false]
-    | ERngR r => TRg false true :: fmt F r (N.max ctx (bs_rng F), pos, unb)
+        let c := N.max ctx (bs_rng F) in fmt F l (c, PUnspec, unb) ++ TRg true true :: fmt F r (c, PUnspec, unb)
+    | ERngL l => fmt F l (N.max ctx (bs_rng F), PUnspec, unb) ++ [TRg true false]
+    | ERngR r => TRg false true :: fmt F r (N.max ctx (bs_rng F), PUnspec, unb)
     | ERng0 => [TRg false false]
-    | ECall f args => let c := N.max ctx (bs_call F) in fmt F f (c, pos, unb) ++ fmt_args c pos args
-    | EGroup k es => TOpen k :: fmt_items k pos es O ++ [TClose k]
+    | ECall f args => let c := N.max ctx (bs_call F) in fmt F f (c, PUnspec, unb) ++ fmt_args c PUnspec args
+    | EGroup k es => TOpen k :: fmt_items k PUnspec es O ++ [TClose k]
     | EAlias _ _ | ENamed _ _ => []
     end.
 
@@ -62,9 +62,9 @@ Section Unfold.
         (fix go (l : list expr) (i : nat) {struct l} : list tok :=
            match l with
            | [] => []
-           | [a] => fmt F a (0%N, pos, false)
-           | a :: (_ :: _) as t => fmt F a (0%N, pos, false) ++ sep_of k i :: go t (S i)
-           end) l i = fmt_items k pos l i).
+           | [a] => fmt F a (0%N, PUnspec, false)
+           | a :: (_ :: _) as t => fmt F a (0%N, PUnspec, false) ++ sep_of k i :: go t (S i)
+           end) l i = fmt_items k PUnspec l i).
       { induction l as [|a t IH]; intros i; cbn [fmt_items]; [reflexivity|].
         destruct t; [reflexivity|]. rewrite IH. reflexivity. }
       destruct (needs F (ctx, pos, unb) (EGroup k es)); cbn [wrap]; rewrite G; reflexivity.
@@ -180,13 +180,13 @@ Section RoundTrip.
       + intros ->. unfold needs in EN. cbn [can_bind_left andb] in EN.
         apply orb_false_iff in EN as [EN _]. apply orb_false_iff in EN as [EN _].
         apply (H_cbl C u Hu EN).
-    - destruct (IHl ltac:(assumption) ltac:(assumption) ltac:(assumption) (N.max ctx (bs_rng F), pos, unb)) as [t [ts [E Hh]]].
+    - destruct (IHl ltac:(assumption) ltac:(assumption) ltac:(assumption) (N.max ctx (bs_rng F), PUnspec, unb)) as [t [ts [E Hh]]].
       rewrite E. cbn [app]. eexists _, _; split; [reflexivity | exact Hh].
-    - destruct (IHl ltac:(assumption) ltac:(assumption) ltac:(assumption) (N.max ctx (bs_rng F), pos, unb)) as [t [ts [E Hh]]].
+    - destruct (IHl ltac:(assumption) ltac:(assumption) ltac:(assumption) (N.max ctx (bs_rng F), PUnspec, unb)) as [t [ts [E Hh]]].
       rewrite E. cbn [app]. eexists _, _; split; [reflexivity | exact Hh].
     - eexists _, _; split; [reflexivity | reflexivity].
     - eexists _, _; split; [reflexivity | reflexivity].
-    - destruct (IHf ltac:(assumption) ltac:(assumption) ltac:(assumption) (N.max ctx (bs_call F), pos, unb)) as [t [ts [E Hh]]].
+    - destruct (IHf ltac:(assumption) ltac:(assumption) ltac:(assumption) (N.max ctx (bs_call F), PUnspec, unb)) as [t [ts [E Hh]]].
       rewrite E. cbn [app]. eexists _, _; split; [reflexivity | exact Hh].
     - eexists _, _; split; [reflexivity | exact I].
   Qed.
@@ -258,7 +258,7 @@ Section RoundTrip.
 
   (* ---------------- what has to be shown for each node: its own (unparenthesised) text parses back *)
   Definition goodb (e : expr) : Prop :=
-    forall ctx pos unb, N.max ctx (strength F e) = strength F e -> leak F e pos = false ->
+    forall ctx pos unb, N.max ctx (strength F e) = strength F e ->
     (is_term e = true -> forall rest, exists g, q_term (par T g) (kind_fmt F e (ctx, pos, unb) ++ rest) = Some (e, rest)) /\
     (is_un e = true -> forall rest, exists g, p_unary T (par T g) (kind_fmt F e (ctx, pos, unb) ++ rest) = Some (e, rest)) /\
     (is_rng e = true -> forall rest, exists g, p_range T (par T g) (kind_fmt F e (ctx, pos, unb) ++ rest) = Some (e, rest)) /\
@@ -271,7 +271,7 @@ Section RoundTrip.
 
   (* what a parent uses about a child printed by `fmt` (with or without parentheses) *)
   Definition good (e : expr) : Prop :=
-    forall st, leak F e (snd (fst st)) = false ->
+    forall st,
     (needs F st e = true \/ is_term e = true -> forall rest, exists g, q_term (par T g) (fmt F e st ++ rest) = Some (e, rest)) /\
     (needs F st e = true \/ is_term e = true \/ is_un e = true ->
        forall rest, exists g, p_unary T (par T g) (fmt F e st ++ rest) = Some (e, rest)) /\
@@ -319,11 +319,11 @@ Section RoundTrip.
   Proof. destruct e; cbn; intro; try discriminate; auto. Qed.
 
   (* the unparenthesised text of a term / unary / range node, seen from the range level *)
-  Lemma kb_range e ctx pos unb : goodb e -> N.max ctx (strength F e) = strength F e -> leak F e pos = false ->
+  Lemma kb_range e ctx pos unb : goodb e -> N.max ctx (strength F e) = strength F e ->
     is_term e = true \/ is_un e = true \/ is_rng e = true ->
     forall rest, norange rest -> exists g, p_range T (par T g) (kind_fmt F e (ctx, pos, unb) ++ rest) = Some (e, rest).
   Proof.
-    intros G Hc Hl Hk rest Hn. destruct (G ctx pos unb Hc Hl) as [Gt [Gu [Gr _]]].
+    intros G Hc Hk rest Hn. destruct (G ctx pos unb Hc) as [Gt [Gu [Gr _]]].
     destruct Hk as [Hk|[Hk|Hk]].
     - destruct (Gt Hk rest) as [g Hg]. exists g. apply range_of_unary; [apply unary_of_term; [exact Hg|] | | exact Hn];
         destruct e; try discriminate Hk; cbn [kind_fmt app]; exact I.
@@ -332,27 +332,27 @@ Section RoundTrip.
     - exact (Gr Hk rest).
   Qed.
 
-  Lemma kb_bin e ctx pos unb : plain e = true -> goodb e -> N.max ctx (strength F e) = strength F e -> leak F e pos = false ->
+  Lemma kb_bin e ctx pos unb : plain e = true -> goodb e -> N.max ctx (strength F e) = strength F e ->
     is_call e = false ->
     forall minp rest k f,
       (forall o l r, e = EBin o l r -> minp <= lbp T o) -> stop (kedge e) rest ->
       q_loop (par T f) minp e rest = Some k ->
       exists g, q_bin (par T g) minp (kind_fmt F e (ctx, pos, unb) ++ rest) = Some k.
   Proof.
-    intros Hp G Hc Hl Hnc minp rest k f Hm Hs Hloop.
+    intros Hp G Hc Hnc minp rest k f Hm Hs Hloop.
     destruct (kind_cases e Hp) as [Hk|[Hk|[Hk|[Hk|Hk]]]]; try (rewrite Hk in Hnc; discriminate).
-    1-3: (destruct (kb_range e ctx pos unb G Hc Hl ltac:(auto) rest (proj1 Hs)) as [g Hg];
+    1-3: (destruct (kb_range e ctx pos unb G Hc ltac:(auto) rest (proj1 Hs)) as [g Hg];
           eexists; eapply bin_of_range; eassumption).
-    destruct (G ctx pos unb Hc Hl) as [_ [_ [_ [Gb _]]]]. exact (Gb Hk minp rest k f Hm Hs Hloop).
+    destruct (G ctx pos unb Hc) as [_ [_ [_ [Gb _]]]]. exact (Gb Hk minp rest k f Hm Hs Hloop).
   Qed.
 
-  Lemma kb_call e ctx pos unb : plain e = true -> goodb e -> N.max ctx (strength F e) = strength F e -> leak F e pos = false ->
+  Lemma kb_call e ctx pos unb : plain e = true -> goodb e -> N.max ctx (strength F e) = strength F e ->
     forall rest, closes rest -> exists g, q_call (par T g) (kind_fmt F e (ctx, pos, unb) ++ rest) = Some (e, rest).
   Proof.
-    intros Hp G Hc Hl rest Hcl.
+    intros Hp G Hc rest Hcl.
     destruct (is_call e) eqn:Ek.
-    - destruct (G ctx pos unb Hc Hl) as [_ [_ [_ [_ Gc]]]]. exact (Gc Ek rest Hcl).
-    - destruct (kb_bin e ctx pos unb Hp G Hc Hl Ek 0 rest (e, rest) 1) as [g Hg].
+    - destruct (G ctx pos unb Hc) as [_ [_ [_ [_ Gc]]]]. exact (Gc Ek rest Hcl).
+    - destruct (kb_bin e ctx pos unb Hp G Hc Ek 0 rest (e, rest) 1) as [g Hg].
       + intros; lia.
       + apply closes_stop; exact Hcl.
       + apply loop_closes; exact Hcl.
@@ -360,12 +360,12 @@ Section RoundTrip.
   Qed.
 
   (* ---------------- a node in parentheses is a term *)
-  Lemma wrapped_term e pos : plain e = true -> wf e = true -> ops_ok e = true -> goodb e -> leak F e pos = false ->
+  Lemma wrapped_term e pos : plain e = true -> wf e = true -> ops_ok e = true -> goodb e ->
     forall rest, exists g,
       q_term (par T g) (TOpen GPipe :: kind_fmt F e (0%N, pos, false) ++ TClose GPipe :: rest) = Some (e, rest).
   Proof.
-    intros Hp Hw Ho G Hl rest.
-    destruct (kb_call e 0%N pos false Hp G ltac:(apply N.max_r; lia) Hl (TClose GPipe :: rest) I) as [g Hg].
+    intros Hp Hw Ho G rest.
+    destruct (kb_call e 0%N pos false Hp G ltac:(apply N.max_r; lia) (TClose GPipe :: rest) I) as [g Hg].
     destruct (fmt_head e Hp Hw Ho (0%N, pos, false)) as [t [ts [E Hh]]].
     rewrite (fmt_plain e _ Hp), (needs_reset e pos Hp Ho) in E. cbn [wrap inner_state] in E.
     rewrite E in *. cbn [app] in *. exists (S (S g)).
@@ -378,7 +378,7 @@ Section RoundTrip.
 
   Lemma goodb_good e : plain e = true -> wf e = true -> ops_ok e = true -> goodb e -> good e.
   Proof.
-    intros Hp Hw Ho G [[ctx pos] unb] Hl. cbn [fst snd] in Hl.
+    intros Hp Hw Ho G [[ctx pos] unb].
     rewrite (fmt_plain e _ Hp).
     destruct (needs F (ctx, pos, unb) e) eqn:EN; cbn [wrap inner_state].
     - (* in parentheses *)
@@ -401,14 +401,14 @@ Section RoundTrip.
     - (* as is *)
       assert (Hc : N.max ctx (strength F e) = strength F e).
       { apply N.max_r. apply (ctx_le (ctx, pos, unb) e EN). }
-      destruct (G ctx pos unb Hc Hl) as [Gt [Gu _]].
+      destruct (G ctx pos unb Hc) as [Gt [Gu _]].
       repeat split.
       + intros [H|H]; [discriminate | exact (Gt H)].
       + intros [H|[H|H]]; [discriminate | | exact (Gu H)].
         intro rest. destruct (Gt H rest) as [g Hg]. exists g. apply unary_of_term; [exact Hg|].
         destruct e; try discriminate H; cbn [kind_fmt app]; exact I.
       + intros minp rest k f Hnc Hm Hs Hloop.
-        apply (kb_bin e ctx pos unb Hp G Hc Hl (Hnc eq_refl) minp rest k f (Hm eq_refl)); [|exact Hloop].
+        apply (kb_bin e ctx pos unb Hp G Hc (Hnc eq_refl) minp rest k f (Hm eq_refl)); [|exact Hloop].
         unfold edge in Hs. destruct e; try exact Hs. rewrite EN in Hs. exact Hs.
       + intros rest Hcl. apply kb_call; assumption.
   Qed.
@@ -449,16 +449,15 @@ Section RoundTrip.
     - apply needs_call. apply (H_call_un C).
   Qed.
 
-  (* bound of a range: in parentheses unless it is a term or a unary operator -- or the position leak strikes *)
-  Lemma rng_child c pos unb : plain c = true -> ops_ok c = true -> bound_leaks F pos c = false ->
-    needs F (bs_rng F, pos, unb) c = true \/ is_term c = true \/ is_un c = true.
+  (* bound of a range (written at position Unspecified): in parentheses unless it is a term or a unary operator *)
+  Lemma rng_child c unb : plain c = true -> ops_ok c = true ->
+    needs F (bs_rng F, PUnspec, unb) c = true \/ is_term c = true \/ is_un c = true.
   Proof.
-    intros Hp Ho Hb. destruct c as [a|o l r|u y|l r|l|r| |f args|k es|n y|n y]; try discriminate Hp; cbn [is_term is_un]; auto; left.
-    - rewrite needs_bin. unfold unwrapped_at. rewrite negb_involutive. cbn [bound_leaks] in Hb.
+    intros Hp Ho. destruct c as [a|o l r|u y|l r|l|r| |f args|k es|n y|n y]; try discriminate Hp; cbn [is_term is_un]; auto; left.
+    - rewrite needs_bin. unfold Fmt.unwrapped_at. rewrite negb_involutive.
       pose proof (H_bin_rng C o (ops_bin _ _ _ Ho)) as Hle.
       destruct (N.ltb_spec (bs o) (bs_rng F)) as [|Hge]; [reflexivity|].
-      assert (bs o = bs_rng F) as E by lia. rewrite E in *. rewrite N.eqb_refl in *. cbn [andb orb] in *.
-      rewrite Hb. reflexivity.
+      assert (bs o = bs_rng F) as E by lia. rewrite E. rewrite N.eqb_refl. cbn [assoc_matches negb andb]. apply orb_true_r.
     - apply needs_eq_unspec; [reflexivity | apply N.le_refl].
     - apply needs_eq_unspec; [reflexivity | apply N.le_refl].
     - apply needs_eq_unspec; [reflexivity | apply N.le_refl].
@@ -484,19 +483,19 @@ Section RoundTrip.
 
   (* one element in a pipeline / tuple (alias allowed) or array / case (plain) *)
   Lemma nested_elem a ok pos : wf a = true -> ops_ok a = true -> is_named a = false -> (is_alias a = true -> ok = true) ->
-    elem_good a -> leak F a pos = false ->
+    elem_good a ->
     forall rest, closes rest ->
     exists g, p_nested (par T g) ok (fmt F a (0%N, pos, false) ++ rest) = Some (a, rest).
   Proof.
-    intros Hw Ho Hn Hal G Hl rest Hcl.
+    intros Hw Ho Hn Hal G rest Hcl.
     destruct a as [a0|o l r|u x|l r|l|r| |f args|k es|n x|n x]; try discriminate Hn.
     10: { (* alias *)
-      cbn [wf ops_ok leak elem_good] in *. bsplit.
-      destruct (G (0%N, pos, false) Hl) as [_ [_ [_ Gc]]]. destruct (Gc rest Hcl) as [g Hg].
+      cbn [wf ops_ok elem_good] in *. bsplit.
+      destruct (G (0%N, pos, false)) as [_ [_ [_ Gc]]]. destruct (Gc rest Hcl) as [g Hg].
       exists g. rewrite fmt_eq. cbn [app p_nested]. rewrite (Hal eq_refl). rewrite Hg. reflexivity. }
     all: (lazymatch goal with |- context [fmt F ?e (0%N, _, false)] =>
             destruct (fmt_head e eq_refl Hw Ho (0%N, pos, false)) as [t [ts [E Hh]]] end;
-          destruct (G (0%N, pos, false) Hl) as [_ [_ [_ Gc]]]; destruct (Gc rest Hcl) as [g Hg];
+          destruct (G (0%N, pos, false)) as [_ [_ [_ Gc]]]; destruct (Gc rest Hcl) as [g Hg];
           exists g; rewrite E in *; cbn [app] in *;
           destruct t; try contradiction; cbn [p_nested]; exact Hg).
   Qed.
@@ -518,14 +517,13 @@ Section RoundTrip.
 
   Lemma items_simple k pos rest : simple_kind k = true ->
     forall es i, Forall elem_good es -> forallb wf es = true -> forallb ops_ok es = true ->
-      forallb (elem_ok_in k) es = true -> existsb (fun a => leak F a pos) es = false ->
+      forallb (elem_ok_in k) es = true ->
       (k = GPipe -> es <> []) ->
       exists g, q_items (par T g) k (fmt_items F k pos es i ++ TClose k :: rest) = Some (es, rest).
   Proof.
-    intros Hk. induction es as [|a t IH]; intros i HG Hw Ho Hin Hl Hne.
+    intros Hk. induction es as [|a t IH]; intros i HG Hw Ho Hin Hne.
     - exists 1. cbn [fmt_items app par step q_items]. destruct k; try discriminate Hk; try reflexivity. exfalso; apply Hne; reflexivity.
-    - inversion HG as [|? ? Ga Gt]; subst. cbn [forallb existsb] in Hw, Ho, Hin, Hl. bsplit.
-      apply orb_false_iff in Hl as [Hla Hlt].
+    - inversion HG as [|? ? Ga Gt]; subst. cbn [forallb existsb] in Hw, Ho, Hin. bsplit.
       assert (Hnamed : is_named a = false /\ (is_alias a = true -> (match k with GPipe | GTup => true | _ => false end) = true)).
       { destruct k; try discriminate Hk; cbn [elem_ok_in] in *.
         - split; [apply negb_true_iff; assumption | reflexivity].
@@ -536,15 +534,15 @@ Section RoundTrip.
       destruct (elem_head a (0%N, pos, false) ltac:(assumption) ltac:(assumption)) as [t0 [ts0 [E0 Hnc]]].
       destruct t as [|b t'].
       + (* last element *)
-        destruct (nested_elem a _ pos ltac:(assumption) ltac:(assumption) Hnn Hal Ga Hla (TClose k :: rest) I) as [g Hg].
+        destruct (nested_elem a _ pos ltac:(assumption) ltac:(assumption) Hnn Hal Ga (TClose k :: rest) I) as [g Hg].
         exists (S g). cbn [fmt_items]. rewrite E0 in *. cbn [app] in *. cbn [par step q_items].
         destruct t0; try contradiction;
           (destruct k; try discriminate Hk; cbn [p_item]; rewrite Hg; cbn [gkind_eqb]; reflexivity).
       + destruct (sep_simple k i Hk) as [Hsep Hcs].
         assert (Hcl : closes (sep_of k i :: fmt_items F k pos (b :: t') (S i) ++ TClose k :: rest)).
         { destruct k; try discriminate Hk; exact I. }
-        destruct (nested_elem a _ pos ltac:(assumption) ltac:(assumption) Hnn Hal Ga Hla _ Hcl) as [g1 Hg1].
-        destruct (IH (S i) Gt ltac:(assumption) ltac:(assumption) ltac:(assumption) Hlt ltac:(discriminate)) as [g2 Hg2].
+        destruct (nested_elem a _ pos ltac:(assumption) ltac:(assumption) Hnn Hal Ga _ Hcl) as [g1 Hg1].
+        destruct (IH (S i) Gt ltac:(assumption) ltac:(assumption) ltac:(assumption) ltac:(discriminate)) as [g2 Hg2].
         exists (S (g1 + g2)).
         change (fmt_items F k pos (a :: b :: t') i) with (fmt F a (0%N, pos, false) ++ sep_of k i :: fmt_items F k pos (b :: t') (S i)).
         rewrite <- app_assoc. cbn [app]. rewrite E0 in *. cbn [app] in *. cbn [par step q_items].
@@ -558,15 +556,14 @@ Section RoundTrip.
   Lemma items_case pos rest :
     forall n es i, length es = 2 * n -> Nat.even i = true ->
       Forall elem_good es -> forallb wf es = true -> forallb ops_ok es = true ->
-      forallb plain es = true -> existsb (fun a => leak F a pos) es = false ->
+      forallb plain es = true ->
       exists g, q_items (par T g) GCase (fmt_items F GCase pos es i ++ TClose GCase :: rest) = Some (es, rest).
   Proof.
-    induction n as [|n IH]; intros es i Hlen Hi HG Hw Ho Hp Hl.
+    induction n as [|n IH]; intros es i Hlen Hi HG Hw Ho Hp.
     - destruct es; [|discriminate Hlen]. exists 1. reflexivity.
     - destruct es as [|c [|v t]]; try (cbn in Hlen; lia).
       inversion HG as [|? ? Gc HG']; subst. inversion HG' as [|? ? Gv Gt]; subst.
-      cbn [forallb existsb] in Hw, Ho, Hp, Hl. bsplit.
-      apply orb_false_iff in Hl as [Hlc Hl]. apply orb_false_iff in Hl as [Hlv Hlt].
+      cbn [forallb existsb] in Hw, Ho, Hp. bsplit.
       pose proof (elem_plain c ltac:(assumption) Gc) as Gc'. pose proof (elem_plain v ltac:(assumption) Gv) as Gv'.
       destruct (fmt_head c ltac:(assumption) ltac:(assumption) ltac:(assumption) (0%N, pos, false)) as [t0 [ts0 [E0 Hh0]]].
       assert (Hsep : sep_of GCase i = TArrow) by (cbn [sep_of]; rewrite Hi; reflexivity).
@@ -575,8 +572,8 @@ Section RoundTrip.
       assert (Hi2 : Nat.even (S (S i)) = true) by (rewrite Nat.even_succ_succ; exact Hi).
       destruct t as [|c2 t2].
       + (* last pair *)
-        destruct (Gv' (0%N, pos, false) Hlv) as [_ [_ [_ Gvc]]]. destruct (Gvc (TClose GCase :: rest) I) as [g2 Hg2].
-        destruct (Gc' (0%N, pos, false) Hlc) as [_ [_ [_ Gcc]]].
+        destruct (Gv' (0%N, pos, false)) as [_ [_ [_ Gvc]]]. destruct (Gvc (TClose GCase :: rest) I) as [g2 Hg2].
+        destruct (Gc' (0%N, pos, false)) as [_ [_ [_ Gcc]]].
         destruct (Gcc (TArrow :: fmt F v (0%N, pos, false) ++ TClose GCase :: rest) I) as [g1 Hg1].
         exists (S (g1 + g2)).
         change (fmt_items F GCase pos [c; v] i) with (fmt F c (0%N, pos, false) ++ sep_of GCase i :: fmt F v (0%N, pos, false)).
@@ -584,10 +581,10 @@ Section RoundTrip.
         pose proof (up_call g1 (g1 + g2) _ _ ltac:(lia) Hg1) as Hg1'. pose proof (up_call g2 (g1 + g2) _ _ ltac:(lia) Hg2) as Hg2'.
         cbn [par step q_items]. destruct t0; try contradiction; cbn [p_item]; rewrite Hg1', Hg2'; reflexivity.
       + assert (Hlen' : length (c2 :: t2) = 2 * n) by (cbn [length] in *; lia).
-        destruct (IH (c2 :: t2) (S (S i)) Hlen' Hi2 Gt ltac:(assumption) ltac:(assumption) ltac:(assumption) Hlt) as [g3 Hg3].
-        destruct (Gv' (0%N, pos, false) Hlv) as [_ [_ [_ Gvc]]].
+        destruct (IH (c2 :: t2) (S (S i)) Hlen' Hi2 Gt ltac:(assumption) ltac:(assumption) ltac:(assumption)) as [g3 Hg3].
+        destruct (Gv' (0%N, pos, false)) as [_ [_ [_ Gvc]]].
         destruct (Gvc (TComma :: fmt_items F GCase pos (c2 :: t2) (S (S i)) ++ TClose GCase :: rest) I) as [g2 Hg2].
-        destruct (Gc' (0%N, pos, false) Hlc) as [_ [_ [_ Gcc]]].
+        destruct (Gc' (0%N, pos, false)) as [_ [_ [_ Gcc]]].
         destruct (Gcc (TArrow :: fmt F v (0%N, pos, false) ++ TComma :: fmt_items F GCase pos (c2 :: t2) (S (S i)) ++ TClose GCase :: rest) I) as [g1 Hg1].
         exists (S (g1 + g2 + g3)).
         change (fmt_items F GCase pos (c :: v :: c2 :: t2) i) with
@@ -617,34 +614,32 @@ Section RoundTrip.
 
   Lemma args_parse pos rest : closes rest ->
     forall args, Forall elem_good args -> forallb wf args = true -> forallb ops_ok args = true ->
-      existsb (fun a => leak F a pos) args = false ->
       exists g, q_args (par T g) (fmt_args F (bs_call F) pos args ++ rest) = Some (args, rest).
   Proof.
-    intros Hcl. induction args as [|a t IH]; intros HG Hw Ho Hl.
+    intros Hcl. induction args as [|a t IH]; intros HG Hw Ho.
     - exists 1. apply args_closes; exact Hcl.
-    - inversion HG as [|? ? Ga Gt]; subst. cbn [forallb existsb] in Hw, Ho, Hl. bsplit.
-      apply orb_false_iff in Hl as [Hla Hlt].
-      destruct (IH Gt ltac:(assumption) ltac:(assumption) Hlt) as [g2 Hg2].
+    - inversion HG as [|? ? Ga Gt]; subst. cbn [forallb existsb] in Hw, Ho. bsplit.
+      destruct (IH Gt ltac:(assumption) ltac:(assumption)) as [g2 Hg2].
       pose proof (args_stop pos rest t Hcl ltac:(assumption) ltac:(assumption)) as Hstop.
       rewrite fmt_args_cons, <- app_assoc.
       set (rest1 := fmt_args F (bs_call F) pos t ++ rest) in *.
-      assert (Hx : forall x unb, good x -> leak F x pos = false ->
+      assert (Hx : forall x unb, good x ->
                 exists g, q_bin (par T g) 0 (fmt F x (bs_call F, pos, unb) ++ rest1) = Some (x, rest1)).
-      { intros x unb Gx Hlx. destruct (Gx (bs_call F, pos, unb) Hlx) as [_ [_ [Gb _]]].
+      { intros x unb Gx. destruct (Gx (bs_call F, pos, unb)) as [_ [_ [Gb _]]].
         apply (Gb 0 rest1 (x, rest1) 1).
         - apply call_wrapped. apply N.le_refl.
         - intros; lia.
         - apply Hstop.
         - apply loop_stop. apply Hstop. }
       destruct a as [a0|o l r|u x|l r|l|r| |f args|k es|n x|n x].
-      10: { cbn [wf ops_ok leak elem_good] in *. bsplit. destruct (Hx x false Ga Hla) as [g1 Hg1].
+      10: { cbn [wf ops_ok elem_good] in *. bsplit. destruct (Hx x false Ga) as [g1 Hg1].
             exists (S (g1 + g2)). rewrite fmt_eq. cbn [app par step q_args].
             rewrite (up_bin g1 (g1 + g2) _ _ _ ltac:(lia) Hg1), (up_args g2 (g1 + g2) _ _ ltac:(lia) Hg2). reflexivity. }
-      10: { cbn [wf ops_ok leak elem_good] in *. bsplit. destruct (Hx x true Ga Hla) as [g1 Hg1].
+      10: { cbn [wf ops_ok elem_good] in *. bsplit. destruct (Hx x true Ga) as [g1 Hg1].
             exists (S (g1 + g2)). rewrite fmt_eq. cbn [app par step q_args].
             rewrite (up_bin g1 (g1 + g2) _ _ _ ltac:(lia) Hg1), (up_args g2 (g1 + g2) _ _ ltac:(lia) Hg2). reflexivity. }
       all: (lazymatch goal with |- context [fmt F ?e (bs_call F, _, true)] =>
-              destruct (Hx e true Ga Hla) as [g1 Hg1];
+              destruct (Hx e true Ga) as [g1 Hg1];
               destruct (fmt_head e eq_refl ltac:(assumption) ltac:(assumption) (bs_call F, pos, true)) as [t0 [ts0 [E Hh]]] end;
             exists (S (g1 + g2)); rewrite E in *; cbn [app] in *; cbn [par step q_args]; cbn [snd] in Hh;
             pose proof (up_bin g1 (g1 + g2) _ _ _ ltac:(lia) Hg1) as Hg1'; pose proof (up_args g2 (g1 + g2) _ _ ltac:(lia) Hg2) as Hg2';
@@ -693,7 +688,7 @@ Section RoundTrip.
     induction e as [a|o l r IHl IHr|u x IHx|l r IHl IHr|l IHl|r IHr| |f args IHf IHargs|k es IHes|n x IHx|n x IHx] using expr_ind2;
       intros Hw Ho; cbn [elem_good].
     - (* atom *)
-      apply goodb_good; try reflexivity. intros ctx pos unb _ _. repeat split; try (intro; discriminate).
+      apply goodb_good; try reflexivity. intros ctx pos unb _. repeat split; try (intro; discriminate).
       intros _ rest. exists 1. reflexivity.
     - (* binary *)
       pose proof Hw as Hw0. pose proof Ho as Ho0. cbn [wf ops_ok] in Hw, Ho. bsplit.
@@ -701,12 +696,12 @@ Section RoundTrip.
       pose proof (pgood_plain l IHl ltac:(assumption) ltac:(assumption) ltac:(assumption)) as Gl.
       pose proof (pgood_plain r IHr ltac:(assumption) ltac:(assumption) ltac:(assumption)) as Gr.
       apply goodb_good; try assumption; try reflexivity.
-      intros ctx pos unb Hc Hl. cbn [strength] in Hc. cbn [leak] in Hl. apply orb_false_iff in Hl as [Hll Hlr].
+      intros ctx pos unb Hc. cbn [strength] in Hc.
       repeat split; try (intro; discriminate).
       intros _ minp rest k f Hm Hs Hloop. cbn [kind_fmt]. rewrite Hc.
       specialize (Hm o l r eq_refl). cbn [kedge] in Hs.
       (* A: the right operand *)
-      destruct (Gr (bs o, PRight, unb) Hlr) as [_ [_ [GrB _]]].
+      destruct (Gr (bs o, PRight, unb)) as [_ [_ [GrB _]]].
       assert (HrR : forall o2 l2 r2, r = EBin o2 l2 r2 -> needs F (bs o, PRight, unb) r = false -> rbp T o <= lbp T o2).
       { intros o2 l2 r2 -> EN. rewrite needs_bin in EN. apply negb_false_iff in EN.
         apply (H_right C); [exact Hob | apply (ops_bin o2 l2 r2); assumption | exact EN]. }
@@ -720,7 +715,7 @@ Section RoundTrip.
       { cbn [par step q_loop]. rewrite (H_bin_sym C o Hob). destruct (Nat.leb_spec minp (lbp T o)); [|lia].
         rewrite (up_bin g1 (g1 + f) _ _ _ ltac:(lia) HA). apply (up_loop f (g1 + f)); [lia | exact Hloop]. }
       (* C: the left operand *)
-      destruct (Gl (bs o, PLeft, unb) Hll) as [_ [_ [GlB _]]].
+      destruct (Gl (bs o, PLeft, unb)) as [_ [_ [GlB _]]].
       rewrite <- app_assoc. cbn [app].
       apply (GlB minp _ k (S (g1 + f))); [ | | | exact HB].
       + apply call_wrapped. apply (H_call_bin C); exact Hob.
@@ -737,30 +732,29 @@ Section RoundTrip.
       match goal with H : (u <? nu) = true |- _ => apply Nat.ltb_lt in H; rename H into Hu end.
       pose proof (pgood_plain x IHx ltac:(assumption) ltac:(assumption) ltac:(assumption)) as Gx.
       apply goodb_good; try assumption; try reflexivity.
-      intros ctx pos unb Hc Hl. cbn [strength] in Hc. cbn [leak] in Hl.
+      intros ctx pos unb Hc. cbn [strength] in Hc.
       repeat split; try (intro; discriminate).
       intros _ rest. cbn [kind_fmt]. rewrite Hc.
-      destruct (Gx (bs_un F, pos, unb) Hl) as [Gt _].
-      destruct (Gt (un_child x pos unb ltac:(assumption) ltac:(assumption)) rest) as [g Hg].
+      destruct (Gx (bs_un F, PUnspec, unb)) as [Gt _].
+      destruct (Gt (un_child x PUnspec unb ltac:(assumption) ltac:(assumption)) rest) as [g Hg].
       exists g. cbn [app p_unary]. rewrite (H_un_sym C u Hu). rewrite Hg. reflexivity.
     - (* range l..r *)
       pose proof Hw as Hw0. pose proof Ho as Ho0. cbn [wf ops_ok] in Hw, Ho. bsplit.
       pose proof (pgood_plain l IHl ltac:(assumption) ltac:(assumption) ltac:(assumption)) as Gl.
       pose proof (pgood_plain r IHr ltac:(assumption) ltac:(assumption) ltac:(assumption)) as Gr.
       apply goodb_good; try assumption; try reflexivity.
-      intros ctx pos unb Hc Hl. cbn [strength] in Hc. cbn [leak] in Hl.
-      apply orb_false_iff in Hl as [Hl Hlr]. apply orb_false_iff in Hl as [Hl Hll]. apply orb_false_iff in Hl as [Hbl Hbr].
+      intros ctx pos unb Hc. cbn [strength] in Hc.
       repeat split; try (intro; discriminate).
       intros _ rest. cbn [kind_fmt]. rewrite Hc.
-      destruct (Gr (bs_rng F, pos, unb) Hlr) as [_ [GrU _]].
-      destruct (GrU (rng_child r pos unb ltac:(assumption) ltac:(assumption) Hbr) rest) as [g2 Hg2].
-      destruct (Gl (bs_rng F, pos, unb) Hll) as [_ [GlU _]].
-      destruct (GlU (rng_child l pos unb ltac:(assumption) ltac:(assumption) Hbl) (TRg true true :: fmt F r (bs_rng F, pos, unb) ++ rest)) as [g1 Hg1].
+      destruct (Gr (bs_rng F, PUnspec, unb)) as [_ [GrU _]].
+      destruct (GrU (rng_child r unb ltac:(assumption) ltac:(assumption)) rest) as [g2 Hg2].
+      destruct (Gl (bs_rng F, PUnspec, unb)) as [_ [GlU _]].
+      destruct (GlU (rng_child l unb ltac:(assumption) ltac:(assumption)) (TRg true true :: fmt F r (bs_rng F, PUnspec, unb) ++ rest)) as [g1 Hg1].
       exists (g1 + g2). rewrite <- app_assoc. cbn [app].
       pose proof (up_unary g1 (g1 + g2) _ _ ltac:(lia) Hg1) as Hg1'. pose proof (up_unary g2 (g1 + g2) _ _ ltac:(lia) Hg2) as Hg2'.
-      destruct (fmt_head l ltac:(assumption) ltac:(assumption) ltac:(assumption) (bs_rng F, pos, unb)) as [t0 [ts0 [E Hh]]].
+      destruct (fmt_head l ltac:(assumption) ltac:(assumption) ltac:(assumption) (bs_rng F, PUnspec, unb)) as [t0 [ts0 [E Hh]]].
       assert (Hnr : match t0 with TRg _ _ => False | _ => True end).
-      { destruct (rng_child l pos unb ltac:(assumption) ltac:(assumption) Hbl) as [Hn|[Hn|Hn]].
+      { destruct (rng_child l unb ltac:(assumption) ltac:(assumption)) as [Hn|[Hn|Hn]].
         - rewrite (fmt_plain l _ ltac:(assumption)), Hn in E. cbn [wrap] in E. injection E as <- _. exact I.
         - destruct l; try discriminate Hn; rewrite fmt_eq in E; destruct (needs F _ _) in E; cbn [wrap kind_fmt inner_state] in E; injection E as <- _; exact I.
         - destruct l; try discriminate Hn; rewrite fmt_eq in E; destruct (needs F _ _) in E; cbn [wrap kind_fmt inner_state] in E; injection E as <- _; exact I. }
@@ -770,15 +764,15 @@ Section RoundTrip.
       pose proof Hw as Hw0. pose proof Ho as Ho0. cbn [wf ops_ok] in Hw, Ho. bsplit.
       pose proof (pgood_plain l IHl ltac:(assumption) ltac:(assumption) ltac:(assumption)) as Gl.
       apply goodb_good; try assumption; try reflexivity.
-      intros ctx pos unb Hc Hl. cbn [strength] in Hc. cbn [leak] in Hl. apply orb_false_iff in Hl as [Hbl Hll].
+      intros ctx pos unb Hc. cbn [strength] in Hc.
       repeat split; try (intro; discriminate).
       intros _ rest. cbn [kind_fmt]. rewrite Hc.
-      destruct (Gl (bs_rng F, pos, unb) Hll) as [_ [GlU _]].
-      destruct (GlU (rng_child l pos unb ltac:(assumption) ltac:(assumption) Hbl) (TRg true false :: rest)) as [g1 Hg1].
+      destruct (Gl (bs_rng F, PUnspec, unb)) as [_ [GlU _]].
+      destruct (GlU (rng_child l unb ltac:(assumption) ltac:(assumption)) (TRg true false :: rest)) as [g1 Hg1].
       exists g1. rewrite <- app_assoc. cbn [app].
-      destruct (fmt_head l ltac:(assumption) ltac:(assumption) ltac:(assumption) (bs_rng F, pos, unb)) as [t0 [ts0 [E Hh]]].
+      destruct (fmt_head l ltac:(assumption) ltac:(assumption) ltac:(assumption) (bs_rng F, PUnspec, unb)) as [t0 [ts0 [E Hh]]].
       assert (Hnr : match t0 with TRg _ _ => False | _ => True end).
-      { destruct (rng_child l pos unb ltac:(assumption) ltac:(assumption) Hbl) as [Hn|[Hn|Hn]].
+      { destruct (rng_child l unb ltac:(assumption) ltac:(assumption)) as [Hn|[Hn|Hn]].
         - rewrite (fmt_plain l _ ltac:(assumption)), Hn in E. cbn [wrap] in E. injection E as <- _. exact I.
         - destruct l; try discriminate Hn; rewrite fmt_eq in E; destruct (needs F _ _) in E; cbn [wrap kind_fmt inner_state] in E; injection E as <- _; exact I.
         - destruct l; try discriminate Hn; rewrite fmt_eq in E; destruct (needs F _ _) in E; cbn [wrap kind_fmt inner_state] in E; injection E as <- _; exact I. }
@@ -788,27 +782,27 @@ Section RoundTrip.
       pose proof Hw as Hw0. pose proof Ho as Ho0. cbn [wf ops_ok] in Hw, Ho. bsplit.
       pose proof (pgood_plain r IHr ltac:(assumption) ltac:(assumption) ltac:(assumption)) as Gr.
       apply goodb_good; try assumption; try reflexivity.
-      intros ctx pos unb Hc Hl. cbn [strength] in Hc. cbn [leak] in Hl. apply orb_false_iff in Hl as [Hbr Hlr].
+      intros ctx pos unb Hc. cbn [strength] in Hc.
       repeat split; try (intro; discriminate).
       intros _ rest. cbn [kind_fmt]. rewrite Hc.
-      destruct (Gr (bs_rng F, pos, unb) Hlr) as [_ [GrU _]].
-      destruct (GrU (rng_child r pos unb ltac:(assumption) ltac:(assumption) Hbr) rest) as [g2 Hg2].
+      destruct (Gr (bs_rng F, PUnspec, unb)) as [_ [GrU _]].
+      destruct (GrU (rng_child r unb ltac:(assumption) ltac:(assumption)) rest) as [g2 Hg2].
       exists g2. cbn [app p_range]. rewrite Hg2. reflexivity.
     - (* range .. *)
-      apply goodb_good; try reflexivity. intros ctx pos unb _ _. repeat split; try (intro; discriminate).
+      apply goodb_good; try reflexivity. intros ctx pos unb _. repeat split; try (intro; discriminate).
       intros _ rest. exists 0. reflexivity.
     - (* call *)
       pose proof Hw as Hw0. pose proof Ho as Ho0. cbn [wf ops_ok] in Hw, Ho. rewrite go_forall in Hw, Ho. bsplit.
       pose proof (pgood_plain f IHf ltac:(assumption) ltac:(assumption) ltac:(assumption)) as Gf.
       pose proof (forall_elem args IHargs ltac:(assumption) ltac:(assumption)) as Gargs.
       apply goodb_good; try assumption; try reflexivity.
-      intros ctx pos unb Hc Hl. cbn [strength] in Hc. cbn [leak] in Hl. rewrite go_exists in Hl. apply orb_false_iff in Hl as [Hlf Hla].
+      intros ctx pos unb Hc. cbn [strength] in Hc.
       repeat split; try (intro; discriminate).
       intros _ rest Hcl. cbn [kind_fmt]. rewrite Hc. rewrite <- app_assoc.
-      destruct (args_parse pos rest Hcl args Gargs ltac:(assumption) ltac:(assumption) Hla) as [g2 Hg2].
-      pose proof (args_stop pos rest args Hcl ltac:(assumption) ltac:(assumption)) as Hstop.
-      destruct (Gf (bs_call F, pos, unb) Hlf) as [_ [_ [GfB _]]].
-      destruct (GfB 0 (fmt_args F (bs_call F) pos args ++ rest) (f, fmt_args F (bs_call F) pos args ++ rest) 1) as [g1 Hg1].
+      destruct (args_parse PUnspec rest Hcl args Gargs ltac:(assumption) ltac:(assumption)) as [g2 Hg2].
+      pose proof (args_stop PUnspec rest args Hcl ltac:(assumption) ltac:(assumption)) as Hstop.
+      destruct (Gf (bs_call F, PUnspec, unb)) as [_ [_ [GfB _]]].
+      destruct (GfB 0 (fmt_args F (bs_call F) PUnspec args ++ rest) (f, fmt_args F (bs_call F) PUnspec args ++ rest) 1) as [g1 Hg1].
       { apply call_wrapped. apply N.le_refl. }
       { intros; lia. }
       { apply Hstop. }
@@ -820,17 +814,17 @@ Section RoundTrip.
       pose proof Hw as Hw0. pose proof Ho as Ho0. cbn [wf ops_ok] in Hw, Ho. rewrite go_forall in Hw, Ho. bsplit.
       pose proof (forall_elem es IHes ltac:(assumption) ltac:(assumption)) as Ges.
       apply goodb_good; try assumption; try reflexivity.
-      intros ctx pos unb Hc Hl. cbn [leak] in Hl. rewrite go_exists in Hl.
+      intros ctx pos unb Hc.
       repeat split; try (intro; discriminate).
       intros _ rest. cbn [kind_fmt]. cbn [app]. rewrite <- app_assoc. cbn [app].
-      assert (HI : exists g, q_items (par T g) k (fmt_items F k pos es 0 ++ TClose k :: rest) = Some (es, rest)).
+      assert (HI : exists g, q_items (par T g) k (fmt_items F k PUnspec es 0 ++ TClose k :: rest) = Some (es, rest)).
       { destruct k.
         - bsplit. apply items_simple; try assumption; try reflexivity.
           intros _ ->. match goal with H : (2 <=? length []) = true |- _ => discriminate H end.
         - apply items_simple; try assumption; try reflexivity. discriminate.
         - apply items_simple; try assumption; try reflexivity. discriminate.
         - bsplit. match goal with H : Nat.even (length es) = true |- _ => apply Nat.even_spec in H; destruct H as [n Hn] end.
-          apply (items_case pos rest n); try assumption; reflexivity. }
+          apply (items_case PUnspec rest n); try assumption; reflexivity. }
       destruct HI as [g Hg]. exists (S g). cbn [par step q_term]. rewrite Hg.
       destruct k; try reflexivity. destruct es as [|a [|b t]]; try reflexivity.
       bsplit. match goal with H : (2 <=? length [a]) = true |- _ => discriminate H end.
@@ -841,19 +835,19 @@ Section RoundTrip.
   Qed.
 
   (* ---------------- the theorem *)
-  Theorem roundtrip e : wf e = true -> ops_ok e = true -> is_named e = false -> leak F e PUnspec = false ->
+  Theorem roundtrip e : wf e = true -> ops_ok e = true -> is_named e = false ->
     exists f0, forall f, f0 <= f -> parse T f (fmt_top F e) = Some e.
   Proof.
-    intros Hw Ho Hn Hl.
-    destruct (nested_elem e true PUnspec Hw Ho Hn (fun _ => eq_refl) (all_good e Hw Ho) Hl [] I) as [g Hg].
+    intros Hw Ho Hn.
+    destruct (nested_elem e true PUnspec Hw Ho Hn (fun _ => eq_refl) (all_good e Hw Ho) [] I) as [g Hg].
     rewrite app_nil_r in Hg. exists g. intros f Hle. unfold parse, fmt_top, st0.
     rewrite (p_nested_mono _ _ (par_le T g f Hle) _ _ _ Hg). reflexivity.
   Qed.
 
-  Corollary idempotent e : wf e = true -> ops_ok e = true -> is_named e = false -> leak F e PUnspec = false ->
+  Corollary idempotent e : wf e = true -> ops_ok e = true -> is_named e = false ->
     forall f e', parse T f (fmt_top F e) = Some e' -> fmt_top F e' = fmt_top F e.
   Proof.
-    intros Hw Ho Hn Hl f e' Hp. destruct (roundtrip e Hw Ho Hn Hl) as [f0 H0].
+    intros Hw Ho Hn f e' Hp. destruct (roundtrip e Hw Ho Hn) as [f0 H0].
     pose proof (parse_mono T f (f + f0) _ _ ltac:(lia) Hp) as H1. rewrite (H0 (f + f0) ltac:(lia)) in H1.
     injection H1 as ->. reflexivity.
   Qed.
